@@ -473,7 +473,7 @@ def run_item(item, interp_timeout=20.0):
     cfgx = {"ca": item["cfg"].get("ca", 0), "vh": item["cfg"].get("vh", 0), "dh": item["cfg"].get("dh", 0),
             "height": item["cfg"].get("height", 64), "decision": item["cfg"].get("decision") or list(range(nd)),
             "vparams": item["cfg"].get("vparams") or [], "dparams": item["cfg"].get("dparams") or [],
-            "mode": item.get("mode", "solve"), "var": item.get("var", 0), "ent": 1}
+            "mode": item.get("mode", "solve"), "var": item.get("var", 0), "ent": 1, "sched": 0}
     out = {"id": item["id"], "P": Pd, "cfgx": cfgx, "cfg": {k: item["cfg"].get(k) for k in ("ca", "vh", "dh", "height")},
            "mode": item.get("mode", "solve"), "var": item.get("var", -1), "limit": item.get("limit", -1),
            "cut": bool(C.cut), "slow": slow, "ev": C.ev}
